@@ -406,7 +406,7 @@ class Node:
         self.repo = repo
         self.slots = {}
         self.trace_prefixes = (repo.rstrip("/") + "/ufl/",)
-        self.evalns = None
+        self.evalns = elements.eval_namespace()
         self.newtypes = {}
         self.ext = {}  # scenario-specific op handlers registered by sim.* modules
         self.fault_log = []
@@ -629,9 +629,32 @@ class Node:
         if h is None:
             raise Skip("unknown-op")
         inner_status = "ok"
+        # Everything the harness itself does (name resolution, argument decoding) happens
+        # outside the fault window, so that warm / cold harness caches cannot move the
+        # point where the fault bites; only the UFL call runs inside it.
+        if name == "call":
+            f = resolve(inner[2])
+            a = [self.dec(x) for x in inner[3]]
+            k = {kk: self.dec(v) for kk, v in (inner[4] if len(inner) > 4 else {}).items()}
 
-        def body():
-            return h(inner)
+            def body():
+                return f(*a, **k)
+
+        elif name == "meth":
+            if inner[3].startswith("_") and not (inner[3].startswith("__") and inner[3].endswith("__")):
+                raise Skip("private")
+            o = self.dec(inner[2])
+            a = [self.dec(x) for x in inner[4]]
+            k = {kk: self.dec(v) for kk, v in (inner[5] if len(inner) > 5 else {}).items()}
+            m = getattr(o, inner[3])
+
+            def body():
+                return m(*a, **k)
+
+        else:
+
+            def body():
+                return h(inner)
 
         try:
             if kind == "interrupt":
